@@ -151,6 +151,8 @@ func c08Eval(w *mc.W, cas c08Case) {
 		})
 	case "bloom":
 		c08Bloom(w, cas)
+	case "bloom-reload":
+		c08BloomReload(w, cas)
 	case "GetMatchedIndices-growth":
 		c08Growth(w, cas)
 	case "merkleblock":
@@ -199,6 +201,50 @@ func c08Bloom(w *mc.W, cas c08Case) {
 			blk.AddTransaction(tx)
 			bloom.NewMerkleBlock(bchutil.NewBlock(blk), f)
 		}
+	})
+}
+
+// ---- bloom: a peer sends one filter-load message, has data matched, then sends another one
+// (a different size and hash-function count) with or without a filterclear in between
+func c08BloomReload(w *mc.W, cas c08Case) {
+	// A, B: lengths of the two filters; C: kA*100+kB; D: between*6 + unload*3 + after
+	lenA, lenB := int(cas.A), int(cas.B)
+	kA, kB := uint32(cas.C/100), uint32(cas.C%100)
+	between, unload, after := int(cas.D)/6, int(cas.D)/3%2, int(cas.D)%3
+	c08Measure(w, cas, lenA+lenB+80, func() {
+		item := bytes.Repeat([]byte{0xab}, 20)
+		h := chainhash.Hash{1}
+		o := wire.OutPoint{Hash: h, Index: 0xffffffff}
+		tx := wire.NewMsgTx(1)
+		tx.AddTxIn(c10In(c10InKinds[0], 0))
+		tx.AddTxOut(wire.NewTxOut(1, c10OutScript("p2pk-K1"), wire.TokenData{}))
+		use := func(f *bloom.Filter, how int) {
+			switch how {
+			case 1:
+				f.Add(item)
+				f.Matches(item)
+				f.Matches(h[:])
+			case 2:
+				f.AddHash(&h)
+				f.AddOutPoint(&o)
+				f.MatchesOutPoint(&o)
+			case 3:
+				f.MatchTxAndUpdate(bchutil.NewTx(tx))
+				blk := wire.NewMsgBlock(fixedHeader(1, &chainhash.Hash{}, &chainhash.Hash{}, 0, 0))
+				blk.AddTransaction(tx)
+				bloom.NewMerkleBlock(bchutil.NewBlock(blk), f)
+			}
+		}
+		f := bloom.LoadFilter(wire.NewMsgFilterLoad(bytes.Repeat([]byte{0x01}, lenA), kA, 5, wire.BloomUpdateAll))
+		use(f, between)
+		if unload == 1 {
+			f.Unload()
+			use(f, between)
+		}
+		f.Reload(wire.NewMsgFilterLoad(bytes.Repeat([]byte{0x80}, lenB), kB, 0xfffffff0, wire.BloomUpdateP2PubkeyOnly))
+		use(f, after+1)
+		f.IsLoaded()
+		f.MsgFilterLoad()
 	})
 }
 
@@ -701,6 +747,16 @@ func c08Cases(c *mc.Ctx) ([]c08Case, int) {
 						continue
 					}
 					add(c08Case{Family: "bloom", A: int64(flen), B: int64(k), C: int64(fl), D: int64(sel)})
+				}
+			}
+		}
+	}
+	// 4b. two filter-load messages in a row on one filter object
+	for _, la := range []int{0, 1, 2, 4, 512, 36000} {
+		for _, lb := range []int{0, 1, 2, 4, 512, 36000} {
+			for _, ks := range []int{0, 1, 100, 101, 150, 5001, 5050} {
+				for d := 0; d < 24; d++ {
+					add(c08Case{Family: "bloom-reload", A: int64(la), B: int64(lb), C: int64(ks), D: int64(d)})
 				}
 			}
 		}
